@@ -63,7 +63,7 @@ Definition refreshes_checkpoint (p : op) : bool :=
 
 (* append_to_family's contract checked on the observed index: inside the family, no parent changed *)
 Definition shift_idx (k : nat) (j : nat) : nat := if j <? k then j else S j.
-Definition atf_ok (o : popts) (ls : list pline) (i k : nat) (x : pline) : bool :=
+Definition atf_ok_at (o : popts) (ls : list pline) (i k : nat) (x : pline) : bool :=
   let ps := tree_parents o ls in
   let ls' := insert_at k x ls in
   let ps' := tree_parents o ls' in
@@ -75,6 +75,13 @@ Definition atf_ok (o : popts) (ls : list pline) (i k : nat) (x : pline) : bool :
   (i <? k) && (k <=? S (family_endpoint ps i)) &&
   forallb (fun j => opt_eqb Nat.eqb (parent_of ps' (shift_idx k j)) (option_map (shift_idx k) (parent_of ps j)))
           (seq 0 (length ls)).
+
+(* The observation is the TEXT after the call.  When the new line equals its neighbours several insertion indices give the
+   same text; the contract holds if it holds for one of the indices that explain the observed text. *)
+Definition pline_text_eqb (a b : pline) : bool := str_eqb (ptext a) (ptext b).
+Definition atf_ok (o : popts) (ls : list pline) (i k : nat) (x : pline) : bool :=
+  existsb (fun k' => list_eqb pline_text_eqb (insert_at k' x ls) (insert_at k x ls) && atf_ok_at o ls i k' x)
+          (seq 0 (S (length ls))).
 
 (* text effect of one operation on a COMMITTED state (line numbers = indices, links = fresh parse) *)
 Definition text_effect (o : popts) (ls : list pline) (p : op) : result (list pline) :=
